@@ -238,6 +238,37 @@ pub fn run(cfg: &RunCfg) -> CheckReport {
             }
         }
     });
+    if ex.acc.violation.is_none() {
+        // a tiny word against very long candidates whose ratios differ by less than 2^-24 and
+        // whose lexicographic order is the opposite of their ratio order
+        let mut cases: Vec<(String, Vec<String>)> = vec![];
+        for &l in &[3000usize, 5993, 8199] {
+            cases.push(("a".into(), vec![format!("a{}", "c".repeat(l)), format!("a{}", "b".repeat(l + 1))]));
+            cases.push(("ab".into(), vec![format!("ab{}", "d".repeat(l)), format!("ab{}", "c".repeat(l + 1)), format!("b{}", "c".repeat(l))]));
+        }
+        let ex3 = explore(cfg, cases.len(), |shard, acc| {
+            let (word, cands) = &cases[shard];
+            let refs: Vec<&str> = cands.iter().map(|s| s.as_str()).collect();
+            for n in [1usize, 2, 5] {
+                for cut in [0.0f32, 1e-5, 1e-4] {
+                    match check_call(word, &refs, n, cut) {
+                        Ok(fp) => {
+                            acc.sample(json!({"word": word, "candidate_lengths": cands.iter().map(|c| c.len()).collect::<Vec<_>>(), "n": n, "cutoff": cut}));
+                            acc.ok(true, 1, fp);
+                        }
+                        Err(e) => {
+                            let short: String = e.chars().take(300).collect();
+                            acc.violation(|| (json!({"word": word, "candidates": refs, "n": n, "cutoff_bits": cut.to_bits()}), format!("candidates of {:?} chars: {}", cands.iter().map(|c| c.chars().count()).collect::<Vec<_>>(), short)))
+                        }
+                    }
+                    if acc.stop() {
+                        return;
+                    }
+                }
+            }
+        });
+        rep.part("tiny-word-vs-huge-candidates", json!({"candidate_lengths": [3000, 5993, 8199], "note": "enumerated family"}), ex3);
+    }
     rep.part("long-words", json!({"words": lw.len(), "note": "enumerated family: words of 7..45 chars (periodic, natural, multi-byte), candidates = prefixes / suffixes / subsequences / perturbed copies, cutoffs = each candidate's own ratio and its f32 neighbours; plus whole lists with many ties"}), ex);
     rep
 }
